@@ -2,6 +2,7 @@ import CpModel.Proto
 import CpModel.Dispatch
 import CpModel.DispatchIO
 import CpModel.Config
+import CpModel.ConfigHist
 import CpModel.Unrepr
 import CpModel.UnreprIO
 /-!
@@ -9,6 +10,9 @@ import CpModel.UnreprIO
 
     conf <D|M> <method> <root> <noneattrs> <nodes> <sections> <global conf> <path>
         → `K=<effective config dict> TM=<toolmaps['tools']> RUN=<tools set up with kwargs> X=<0|1>` | `E:<err>`
+    confh <D|M> <method> <root> <noneattrs> <nodes> <sections> <global conf> <path> <tool handlers>
+        → the same plus ` H=<tool>:<kwargs of the page-handler tool call>` | ` H=-`
+          (tool handlers = `-` | <node id>:<tool>:<kwargs conf>;…   — `tools.<t>.handler(**kw)` page handlers)
     fc <sections> <path> <key> <default: - | val>        → `V=<val>` | `V=-`
     build <ast>                                            → `ok <val>` | `err <class>`      (reprconf._Builder)
     toast <val>                                            → `<ast>`                         (AST of repr(val))
@@ -22,8 +26,26 @@ namespace Drv.C08
 def showToolList (l : List (Name × Conf)) : String :=
   if l.isEmpty then "-" else ";".intercalate (l.map fun (t, c) => Proto.text t ++ ":" ++ showConf c)
 
+def parseTh (s : String) : Option ConfigHist.ToolHandler :=
+  match s.splitOn ":" with
+  | [i, t, c] => do
+    let kw ← parseConf c
+    pure { node := ← i.toNat?, tool := ← parseName t, kwargs := kw.getD [] }
+  | _ => none
+
 def step (line : String) : String :=
   match Proto.fields line with
+  | ["confh", kind, meth, root, na, nodes, secs, glob, path, th] =>
+    match parseApp root na nodes secs, Proto.untext? path, parseName meth, parseConf glob, parseList ";" parseTh th with
+    | some app, some p, some m, some g, some ths =>
+      if kind != "M" && kind != "D" then "bad-op" else
+      let w : ConfigHist.World := { glob := g.getD [], g := app.g, apps := [app.sections], thkw := ths }
+      match ConfigHist.observe w 0 (kind == "M") m p with
+      | .error e => s!"E:{showErr e}"
+      | .ok o =>
+        let c := match ConfigHist.effective w 0 (kind == "M") m p with | .ok c => c | .error _ => []
+        s!"K={showConf o.config} TM={showToolList o.toolmap} RUN={showToolList o.setup} X={if toolmapError c then 1 else 0} H={showToolList o.page.toList}"
+    | _, _, _, _, _ => "bad-op"
   | ["conf", kind, meth, root, na, nodes, secs, glob, path] =>
     match parseApp root na nodes secs, Proto.untext? path, parseName meth, parseConf glob with
     | some app, some p, some m, some g =>
